@@ -193,6 +193,8 @@ func (ex *Exec) harnessPrim(st *State, fn *ssa.Function, args []Value, in *ssa.C
 		setRes(st, in, Or(Not(args[0].(*Term)), args[1].(*Term)))
 	case "vIte":
 		setRes(st, in, Ite(args[0].(*Term), args[1].(*Term), args[2].(*Term)))
+	case "vLiveContext":
+		setRes(st, in, IfaceV{T: in.Type(), V: OpaqueV{"ctxlive", 0}})
 	case "vUnsafeClass":
 		st.unsafeClass = int(args[0].(*Term).Val)
 	case "vOutUnsafe":
@@ -1164,7 +1166,17 @@ func init() {
 			return true
 		},
 		"github.com/jech/storrent/mono.Now": func(ex *Exec, st *State, args []Value, in *ssa.Call, pos token.Pos) bool {
-			setRes(st, in, ex.freshVar("mono.now", BV(32)))
+			// seconds since an arbitrary origin, non-decreasing along the path
+			v := ex.freshVar("mono.now", BV(32))
+			for i := len(st.notes) - 1; i >= 0; i-- {
+				if strings.HasPrefix(st.notes[i], "mono:") {
+					st.pc = append(st.pc, Ule(Var(st.notes[i][5:], BV(32)), v))
+					break
+				}
+			}
+			st.pc = append(st.pc, Ule(Const(32, 1), v), Ult(v, Const(32, 1<<31)))
+			st.notes = append(st.notes, "mono:"+v.Name)
+			setRes(st, in, v)
 			return true
 		},
 		"github.com/zeebo/bencode.DecodeBytes": func(ex *Exec, st *State, args []Value, in *ssa.Call, pos token.Pos) bool {
